@@ -10,14 +10,15 @@ RULE = ("Case = partition logs built by the reference codec (v0/v1/v2, compresse
         "gaps, empty and control batches, log start > 0, mixed formats in upgrade order) x fetch shaping "
         "(batches per response, trailing partial batch, max bytes) x 1-3 application tasks of "
         "getone/getmany/seek/pause/resume/position x faults on Fetch/Metadata/ListOffsets x leader moves, "
-        "outages, external appends. A real AIOKafkaConsumer (assign or group-less subscribe) runs it; "
+        "outages, external appends, log-start advances (retention). A real AIOKafkaConsumer (assign or group-less subscribe) runs it; "
         "every returned record is checked against a per-partition position model over the reference-"
         "decoded log. Non-trivial = a seek/pause landed while a fetch for that partition was in flight, "
         "or a fetch offset fell inside a batch, or a response was cut, or a fault fired. Distinct = "
         "distinct case value.")
 ASSUMPTIONS = ["simulated cluster vlib/simkafka (fetch returns whole batches, at least one when data exists)",
                "reference codec vlib/refrecords builds and decodes the logs",
-               "seeks stay inside [log start, log end]; auto_offset_reset=earliest (reset paths belong to C13)"]
+               "seeks stay inside [log start, log end] as of the call; auto_offset_reset=earliest; records below the final log "
+               "start may be skipped if not yet delivered when retention removed them (other reset paths belong to C13)"]
 
 
 def evaluate(case, obs):
@@ -35,7 +36,7 @@ def evaluate(case, obs):
     pos, delivered, vis = CS.check_delivery(case, obs, out, "read_uncommitted")
     for k, p in getattr(obs, "final_positions", {}).items():
         if isinstance(p, int) and not obs.deadlock:
-            nv = [x for x in vis[k] if x[0] >= pos[k]]
+            nv = [x for x in vis[k] if x[0] >= max(pos[k], obs.final[k]["log_start"])]
             hi = nv[0][0] if nv else max(obs.final[k]["end"], pos[k])
             if not (pos[k] <= p <= hi):
                 out.fail("position_bounds", "final_position", {"tp": k, "position": p, "model_pos": pos[k], "hi": hi})
@@ -66,6 +67,16 @@ def evaluate(case, obs):
         out.label("response_cut")
     if c.fault_log:
         out.label("fault_fired")
+    if any(e.get("ev") == "trim" for e in case.get("env", [])) or any(op[0] == "trim" for t in case["tasks"] for op in t):
+        out.label("log_start_moved")
+    oor = [a for a in c.arrivals if a.key == 1 and a.reply and any(p.get("error") == 1 for t in a.reply["topics"] for p in t["partitions"])]
+    if oor:
+        out.label("fetch_answered_out_of_range")
+        for a in oor:
+            bad = {"%s:%d" % (t["topic"], p["partition"]) for t in a.reply["topics"] for p in t["partitions"] if p.get("error") == 1}
+            if any(ev["op"] == "seek" and ev.get("tp") in bad and a.t_written is not None and a.t_end is not None and
+                   a.t_written <= ev.get("t", ev["t_call"]) <= a.t_end for ev in obs.events):
+                out.label("seek_while_out_of_range_fetch_in_flight")
     fmts = {b["fmt"] for lg in case["logs"] for b in lg["batches"] if "fmt" in b}
     for f in fmts:
         out.label("fmt_" + f)
@@ -185,6 +196,12 @@ def strategy():
                         "log": draw(st.integers(0, nparts - 1)),
                         "spec": {"fmt": "v2", "kind": "data", "n": draw(st.integers(1, 3)),
                                  "codec": draw(st.sampled_from([0, 1])), "ts": [5]}})
+        if draw(st.integers(0, 3)) == 0:
+            # retention moves the log start while the consumer runs: a fetch at the old position is answered
+            # OFFSET_OUT_OF_RANGE (reset to earliest), possibly after the application has already sought elsewhere
+            for _ in range(draw(st.integers(1, 2))):
+                env.append({"at": draw(st.sampled_from([0.005, 0.012, 0.03, 0.1, 0.3])), "ev": "trim",
+                            "log": draw(st.integers(0, nparts - 1)), "frac": draw(st.sampled_from([0.3, 0.6, 1.0]))})
         if nodes > 1:
             for _ in range(draw(st.integers(0, 2))):
                 env.append({"at": draw(st.sampled_from([0.01, 0.05, 0.2, 0.6])), "ev": "move_leader", "topic": "t0",
@@ -202,11 +219,39 @@ def strategy():
                 "shape_partial": draw(st.lists(st.sampled_from([0, 0, 5, 20, 70]), min_size=1, max_size=3)),
                 "lat": draw(st.lists(st.sampled_from([0.0005, 0.001, 0.003, 0.01, 0.02]), min_size=1, max_size=4)),
                 "chunks": draw(st.lists(st.sampled_from([0, 0, 1, 5, 13, 64]), min_size=1, max_size=4)),
-                "rng_seed": draw(st.integers(0, 2 ** 31))}
+                "rng_seed": draw(st.integers(0, 2 ** 31)),
+                "drain": draw(st.sampled_from(["getmany", "getmany", "getone"]))}
     return cases()
+
+
+def stale_error_cases(shard, nshards, stride=1):
+    """Retention passes a position the application had sought to; the Fetch at that position is answered
+    OFFSET_OUT_OF_RANGE, and a second seek lands at a swept instant around that answer: the stale error must not
+    undo it.  Sleeps, the trim instant and the latency are swept so that every order of the five events occurs."""
+    i = 0
+    batches = [{"fmt": "v2", "kind": "data", "n": 3, "codec": 0, "pad": 0, "ts": [5]} for _ in range(6)]
+    for lat in (0.02, 0.005, 0.05):
+        for x in (0.0, 0.02, 0.04, 0.06, 0.08, 0.1, 0.12, 0.16, 0.2):
+            for d1 in (0.0, 0.004):
+                for y in (0.002, 0.005, 0.01, 0.02, 0.03, 0.045, 0.06, 0.08, 0.1, 0.13, 0.17, 0.22):
+                    i += 1
+                    if i % stride or (i // stride) % nshards != shard:
+                        continue
+                    ops = [["getmany", [0], None, 300], ["sleep", x], ["seek", 0, 0.0], ["sleep", d1], ["trim", 0, 0.5],
+                           ["sleep", y], ["seek", 0, 0.8]] + [["getmany", [0], None, 300]] * 3
+                    yield {"cfg": {"mode": "assign", "max_partition_fetch_bytes": 1048576, "fetch_max_wait_ms": 100,
+                                   "check_crcs": True, "request_timeout_ms": 1000, "retry_backoff_ms": 20,
+                                   "metadata_max_age_ms": 5000, "max_poll_records": None},
+                           "cluster": {"nodes": 1, "fetch_max": 11, "list_offsets_max": 3},
+                           "logs": [{"topic": "t0", "nparts": 1, "partition": 0, "log_start": 0, "batches": batches, "hw_lag": 0}],
+                           "tasks": [ops], "faults": [], "env": [],
+                           "shape_batches": [0], "shape_partial": [0], "lat": [lat], "chunks": [0], "rng_seed": 1,
+                           "drain": "getmany"}
 
 
 def campaigns(tier):
     th = tier == "thorough"
-    return [Campaign("fetch_sim", "hyp", execute=execute, strategy=strategy,
-                     examples=30000 if th else 1200, setup=CS.setup, max_wall=900 if th else 100, shrink_wall=40)]
+    return [Campaign("stale_error", "enum", execute=execute, setup=CS.setup, exhaustive=th,
+                     cases=(lambda s, n: stale_error_cases(s, n, 1)) if th else (lambda s, n: stale_error_cases(s, n, 1))),
+            Campaign("fetch_sim", "hyp", execute=execute, strategy=strategy,
+                     examples=30000 if th else 6000, setup=CS.setup, max_wall=900 if th else 100, shrink_wall=40)]
